@@ -1884,7 +1884,7 @@ class Interp:
     def s_For(self, node, env):
         spec = self.loop_spec(node)
         itv = self.force(self.eval(node.iter, env))
-        symbolic_iter = isinstance(itv, (SSeq, SSetZ, SMapZ)) or (isinstance(itv, tuple) and len(itv) == 2 and itv and itv[0] == "__range__")
+        symbolic_iter = isinstance(itv, (SSeq, SSetZ, SMapZ)) or (isinstance(itv, tuple) and itv and itv[0] == "__range__")
         if isinstance(itv, TheoryObj) and itv.theory in ("reflist", "reflist_enum"):
             if spec is None:
                 raise Unsupported(f"for loop at line {node.lineno} over a list of heap objects of unknown length needs an invariant")
@@ -1922,6 +1922,7 @@ class Interp:
             it["lo"], it["hi"] = itv[1], itv[2]
             it["i"] = itv[1]
             it["n"] = itv[2]
+            it["step"] = itv[3] if len(itv) > 3 else 1
         elif isinstance(itv, SSetZ):
             it["done"] = z3.EmptySet(itv.z.sort().domain())
         elif isinstance(itv, (PList, tuple, list)):
@@ -1951,7 +1952,13 @@ class Interp:
         if "i" in it:
             i = c.fresh_int("it")
             lo = it.get("lo", z3.IntVal(0))
-            c.assume(z3.And(i >= lo, i <= z3.If(it["n"] >= lo, it["n"], lo)))
+            step = it.get("step", 1)
+            if step == 1:
+                c.assume(z3.And(i >= lo, i <= z3.If(it["n"] >= lo, it["n"], lo)))
+            else:
+                # lo, lo+step, ...: the loop head is reached with i = lo + k*step, and (when past the end) less than one step beyond
+                k = c.fresh_int("k")
+                c.assume(z3.And(k >= 0, i == lo + k * step, z3.Or(k == 0, i - step < it["n"])))
             it["i"] = i
         elif "symiter" in it:
             pass
@@ -2005,7 +2012,7 @@ class Interp:
             pass
         it["after_body"] = True
         if "i" in it:
-            it["i"] = it["i"] + 1
+            it["i"] = it["i"] + it.get("step", 1)
         elif "symiter" in it:
             pass
         else:
